@@ -451,11 +451,14 @@ func readInt(n int, b []byte) ([]byte, uint64, error) {
 	nn := uint64(0)
 
 	for i := 1; i < len(b); i++ {
-		if shift := (i - 1) * 7; shift >= 64 {
+		// a digit that is shifted out of the 64 bits, or a sum past them, is
+		// an overflow too
+		d, shift := uint64(b[i]&127), uint((i-1)*7)
+		if shift >= 64 || d<<shift>>shift != d || nn+d<<shift+uint64(b0) < uint64(b0) {
 			return b, 0, ErrIntOverflow
-		} else {
-			nn |= uint64(b[i]&127) << shift
 		}
+
+		nn |= d << shift
 
 		if b[i]&128 != 128 {
 			return b[i+1:], nn + uint64(b0), nil
